@@ -2,7 +2,7 @@ SPECIFICATION Spec
 CONSTANTS
   MaxTokens = 7
   MaxDepth = 3
-  Scalars = {2, 5, 9, 10, 12, 13, 15, 16}
-  Keys = {1, 3, 4, 5, 6, 8}
+  Scalars = {2, 5, 9, 12, 13, 15, 16, 21}
+  Keys = {1, 4, 5, 6, 8, 12, 13}
 INVARIANTS TypeOK Balanced NoDanglingKey Emit
 CHECK_DEADLOCK FALSE
